@@ -39,6 +39,8 @@ MANIFEST = dict(
          "an existing name succeeds). Outside the model: splice() results other than a complete transfer and the socket "
          "variant of the splice path (the pipe variant is modelled: op sp), sendfile()/mmap paths, read faults (pread/open/"
          "dup errors), close() failures, chunkqueue_set_tempdirs() during the life of a queue, buffers >= 4 GiB; "
+         "file chunks of 2^31..8 GiB octets reach the C through sparse files in a reference-oracle stream (big) that runs "
+         "without the model; "
          "two queues; caller obligations of chunk.h (file ranges inside the file, mark_written <= length, "
          "compact_mem on MEM-only queues) are hypotheses (OpOK) resp. harness guards. The model describes the "
          "repaired behaviour for five defects found by this check (D43-D46 and the closed-temp-chunk copy)",
